@@ -372,6 +372,26 @@ impl Sel {
                     }
                 } else {
                     mon.count("stayed-on-last");
+                    // "competes at 2% / 80% of its score": a held link whose score carries a gate or
+                    // warming factor must lose the hysteresis comparison on that factored score.
+                    let c = &self.links[l];
+                    let factored = (any_unc && (c.weak || c.loss_degraded)) || matches!(c.phase, LinkPhase::Warming { .. });
+                    if let (true, Some(Some(sl))) = (factored, scored.get(l)) {
+                        mon.count("stayed-on-factored-last");
+                        let best_other = scored
+                            .iter()
+                            .enumerate()
+                            .filter(|(i, _)| *i != l)
+                            .filter_map(|(_, s)| *s)
+                            .fold(f64::NEG_INFINITY, f64::max);
+                        if best_other > *sl && best_other >= *sl * 1.10 {
+                            mon.fail(
+                                "C11",
+                                "factor-not-applied-to-held-link",
+                                format!("stayed on link {l} (weak={} loss_degraded={} phase={:?}, factored score {sl}) although another link scores {best_other} >= 1.10x that; scores {scored:?} ({op})", c.weak, c.loss_degraded, c.phase),
+                            );
+                        }
+                    }
                 }
             }
         }
